@@ -53,12 +53,25 @@ var c13Schemas = []c13Schema{
 	{name: "S/N-numerals", hashT: "S", rngT: "N", hashes: c13NumeralStrings, rngs: []string{"1.0", "2.00"}},
 	{name: "S-numerals", hashT: "S", hashes: c13NumeralStrings, hashOnly: true},
 	{name: "B/S", hashT: "B", rngT: "S", hashes: []string{"a", "a.b", "\x00", "\x00\x01", ".", "[1 2]", "1 2", "\x01\x02"}, rngs: c13Pool[:6]},
+	// number keys that need all 38 digits: neighbours beyond 2^53, beyond 64 mantissa bits, in the last of 38
+	// digits, tiny fractional differences, the ends of the exponent range - every two of them are different keys
+	{name: "N-big", hashT: "N", hashes: c13BigNumerals, hashOnly: true},
+	{name: "N/N-big", hashT: "N", rngT: "N", hashes: c13BigNumerals[:8], rngs: c13BigNumerals[4:14]},
+	{name: "S/N-big", hashT: "S", rngT: "N", hashes: c13Pool[:3], rngs: c13BigNumerals},
+	{name: "N/S-big", hashT: "N", rngT: "S", hashes: c13BigNumerals, rngs: c13Pool[:3]},
 }
+
+var c13BigNumerals = []string{"9007199254740992", "9007199254740993", "9007199254740994", "-9007199254740993", "1152921504606846977", "1152921504606846978",
+	"20260928123456000000001", "20260928123456000000002", "12345678901234567890123456789012345678", "12345678901234567890123456789012345679",
+	"1.00000000000000000001", "1.00000000000000000002", "0.1", "0.10000000000000000000000000000000000001", "1E-130", "1.1E-130", "9.9E125", "9.8999999999999999999999999999999999999E125",
+	"-9007199254740992", "1E37", "10000000000000000000000000000000000001", "1541815603606036480", "1541815603606036481"}
 
 var c13NumeralStrings = []string{"1", "1.0", "1.00", "01", "1e0", "2.00", "2", "007", "7", "-0", "0"}
 
 // notations of equal value: a number key part written either way addresses the same item
-var c13EqualNumerals = [][2]string{{"1", "1.0"}, {"1.0", "1.00"}, {"10", "1e1"}, {"100", "1E2"}, {"0.5", "0.50"}, {"-1", "-1.0"}, {"0", "-0"}, {"0", "0.0"}, {"7", "007"}, {"72.5", "72.50"}, {"1000", "1E+3"}, {"0.001", "1e-3"}}
+var c13EqualNumerals = [][2]string{{"1", "1.0"}, {"1.0", "1.00"}, {"10", "1e1"}, {"100", "1E2"}, {"0.5", "0.50"}, {"-1", "-1.0"}, {"0", "-0"}, {"0", "0.0"}, {"7", "007"}, {"72.5", "72.50"}, {"1000", "1E+3"}, {"0.001", "1e-3"},
+	{"9007199254740993", "9007199254740993.0"}, {"9007199254740993", "9.007199254740993E15"}, {"12345678901234567890123456789012345678", "1.2345678901234567890123456789012345678E37"},
+	{"20260928123456000000001", "20260928123456000000001.000"}, {"1E-130", "0.1E-129"}}
 
 type c13Pair struct {
 	schema int
